@@ -158,5 +158,18 @@ PROPS["C19"] = {
     "assumptions": ["media types accepted by CreateHdlr (others panic by design: 'mediaType not supported')", "language tags are ASCII"],
 }
 
+
+PROPS["C20"] = {
+    "level": "proof",
+    "race": True,
+    "technique": "Lean 4 proof (non-interference: in a machine whose steps touch only goroutine-private state every interleaving equals running alone) + source facts regenerated by the translator and closed by the kernel (no package-level variable is written outside the registry functions) + race-detector harness tying the machine's assumption to the code",
+    "level_text": "Theorems in Props/C20.lean: interleaving_independent / schedules_equivalent for the abstract machine of Model/Conc.lean (any number of goroutines, any schedule), hidden_state_is_observable (a package-level cache breaks it), and no_hidden_state / globals_are_tables_or_errors about the list of package-level variables and their writers that /verif/extract regenerates from the Go sources on every run. The assumption of the machine (a step reads the shared input and writes only its own structures) is tied to the code by running every task alone and then all tasks in parallel goroutines under the Go race detector on shared read-only inputs, comparing per-goroutine digests with the solo digests and the input bytes before/after.",
+    "level_note": "Trusted: Lean kernel, allowed axioms, the go/ast extractor (writes through pointers obtained from a package-level variable are flagged as address-taken), the Go race detector (happens-before, reports only races that occur in the explored schedules).",
+    "trusted": ["/verif/extract globals pass (go/ast): assignments, inc/dec, address-taking and method calls on package-level variables", "Go race detector"],
+    "unmodelled": ["the Go memory model itself (the abstract machine assumes sequentially consistent private state)", "races inside the standard library"],
+    "partial": ["the step-locality assumption of the abstract machine is validated by the race harness on the explored schedules and inputs, not proved from the Go source"],
+    "assumptions": ["the box-decoder registries are not modified while goroutines run (as the property states)"],
+}
+
 # reasons for properties that are not claimed (yet)
 NOT_CLAIMED = {}
